@@ -32,6 +32,11 @@
 //	                   Expr.rootedFilters, Expr.nestedRoot assigns through its receiver (`x[i] = …`, `f.root = …`), withRoot returns
 //	                   a new `&Filter{…}` and rootedFilters works on `make(Expr, len(x))` + `copy(rx, x)`: the caller's parsed
 //	                   Expr is not changed by an evaluation (seeded C11-m7: rooting the caller's filter in place)
+//	descentMarkerMissing (no flag; expected false) in the descent case of Get, FirstFound or Has a member reached through the reflect
+//	                   fallback is pushed without its own `fi|descentChildFlag` marker (repaired 172dffb: FirstFound and Has did
+//	                   not descend into a typed container held in a plain one)
+//	filterPointerBlind (no flag; expected false) evalWithRoot or Filter.Walk does not follow a pointer before switching on the
+//	                   reflect kind (repaired 46bed20)
 //	filterRootIsArgument (no flag; expected true) Get, FirstFound, Has, GetNodes and FirstNode hand their own argument to a filter as its root
 //
 // Fails loudly when a function it looks for is missing.
@@ -253,6 +258,31 @@ func extractJpath(repo, out string) ([]string, error) {
 		}
 	}
 	facts["exprNotWritten"] = notWritten
+	// the descent case of the three machines: from `caseDescent:` to the next fragment case
+	markerMissing := false
+	for _, m := range []fn{{"get.go", "Expr", "Get"}, {"get.go", "Expr", "FirstFound"}, {"has.go", "Expr", "Has"}} {
+		b, err := get(m)
+		if err != nil {
+			continue
+		}
+		i := strings.Index(b, "caseDescent:")
+		j := strings.Index(b, "caseRoot:")
+		if i < 0 || j < i {
+			if firstErr == nil {
+				firstErr = fmt.Errorf("jpath: no descent case found in %s", m.name)
+			}
+			continue
+		}
+		seg := b[i:j]
+		const bare = "casereflect.Ptr,reflect.Slice,reflect.Struct,reflect.Array,reflect.Map:stack=append(stack,v)}"
+		const marked = "casereflect.Ptr,reflect.Slice,reflect.Struct,reflect.Array,reflect.Map:stack=append(stack,v)stack=append(stack,fi|descentChildFlag)}"
+		if strings.Contains(seg, bare) || !strings.Contains(seg, marked) {
+			markerMissing = true
+		}
+	}
+	facts["descentMarkerMissing"] = markerMissing
+	const deref = "ifrv.Kind()==reflect.Ptr{rv=rv.Elem()}"
+	facts["filterPointerBlind"] = !(has(ewr, deref) && has(fwalk, deref))
 	if firstErr != nil {
 		return nil, firstErr
 	}
@@ -260,7 +290,7 @@ func extractJpath(repo, out string) ([]string, error) {
 	order := []string{"innerEmptySlice", "descentSiblings", "locNegEnd", "locStartClamp", "locEmptyArray", "locateRoot",
 		"walkDescentNoSelf", "nodesUnionNil", "nodesFilterRev", "firstNodeLast", "nodesFilterNull", "typedMapWild",
 		"typedObjFilter", "firstTypedSlice", "firstTypedWildOne", "hasTypedMap", "hasTypedDescent", "walkTypedArray",
-		"nestedFilterRoot", "locFilterRootNil", "walkFilterRootSelf", "filterRootIsArgument", "exprNotWritten"}
+		"nestedFilterRoot", "locFilterRootNil", "walkFilterRootSelf", "filterRootIsArgument", "exprNotWritten", "descentMarkerMissing", "filterPointerBlind"}
 	var b strings.Builder
 	b.WriteString("/- GENERATED by /verif/tools/extract (jpath.go) from jp/*.go — do not edit; rewritten on every run.\n")
 	b.WriteString("   One Bool per deviation flag of OjgVerif.JPath.Cfg: true = the deviation is in the source\n   (filterRootIsArgument is not a flag: true = the five Get-like entry points hand their argument to filters as the root;\n   exprNotWritten is not a flag: true = no evaluator writes through the Expr or Filter it is given). -/\n")
